@@ -88,8 +88,12 @@ def run_scheduled(d, procs, schedule):
 TRACE_RE = re.compile(r'^exists( load)?( remove makedirs open write close replace load)?$')
 
 
-def conforms(ops):
-    return bool(TRACE_RE.match(' '.join(ops)))
+TRACE_NOLOAD_RE = re.compile(r'^exists( remove makedirs open write close replace)?$')
+
+
+def conforms(ops, noload=False):
+    """noload: the harness could not observe the loads (the code generator loads modules by other means than the loader it used to import)"""
+    return bool((TRACE_NOLOAD_RE if noload else TRACE_RE).match(' '.join(ops)))
 
 
 def step_ok(rec, variant):
